@@ -47,6 +47,9 @@ def cases(tier, seed):
         ("periodic-xy2-mixedwalls", (2, 2, 3), (2, 2, 1), "periodic_xy_pec_z", (0, 0, 0), "uniform"),
         # full (non-diagonal) tensors: the anisotropic branch averages across the wrap seam diagonally (edge/corner ghost cells)
         ("bloch-xy2-fulltensor", (2, 2, 2), (2, 2, 1), "bloch", (1.3, -0.7, 0), "uniform"),
+        # one cell along a Bloch axis with k != 0 (quasi-2D run with an out-of-plane wave vector): the cell is its own
+        # neighbour up to the phase, the derivative along that axis does not vanish (seeded change C09b)
+        ("bloch-y1-singlecell", (3, 1, 2), (1, 2, 1), "bloch", (0.5, 1.3, 0), "uniform"),
     ]
     if tier != "quick":
         base += [
@@ -56,6 +59,9 @@ def cases(tier, seed):
             ("bloch-halfpi-y2", (2, 3, 2), (1, 2, 1), "bloch", (0, np.pi / 2, 0), "uniform"),
             ("periodic-yz2-fulltensor", (2, 2, 2), (1, 2, 2), "periodic", (0, 0, 0), "uniform"),
             ("bloch-xz2-fulltensor-nonuniform", (2, 2, 2), (2, 1, 2), "bloch", (0.8, 0.3, -1.1), "nonuniform"),
+            ("bloch-x1-singlecell-x3", (1, 2, 3), (3, 1, 1), "bloch", (-1.9, 0.0, 0.7), "uniform"),
+            ("periodic-z1-singlecell", (2, 2, 1), (1, 1, 2), "periodic", (0, 0, 0), "uniform"),
+            ("bloch-z1-singlecell-nonuniform", (2, 3, 1), (1, 1, 2), "bloch", (0.3, 0.0, 2.1), "nonuniform"),
         ]
     for nm, shape, tile, kind, kL, grid in base:
         # full-tensor scenes: every output entry depends on ~27 neighbours per step; one step (quick) / two steps already
